@@ -198,7 +198,7 @@ func installStr(c *Ctx) {
 	in["internal/stringslite.Clone"] = func(c *Ctx, a []Value) Value { return a[0] }
 	in["strings.Clone"] = func(c *Ctx, a []Value) Value { return a[0] }
 	in["fmt.Sprintf"] = func(c *Ctx, a []Value) Value { return c.sprintf(a) }
-	in["fmt.Sprint"] = func(c *Ctx, a []Value) Value { return opaqueStr() }
+	in["fmt.Sprint"] = func(c *Ctx, a []Value) Value { return c.intrinsics["fmt.verifSprint"](c, a) }
 	in["fmt.Sprintln"] = func(c *Ctx, a []Value) Value { return opaqueStr() }
 	in["fmt.Printf"] = func(c *Ctx, a []Value) Value { return Tuple{BV(0, 64), Iface{}} }
 	in["fmt.Println"] = func(c *Ctx, a []Value) Value { return Tuple{BV(0, 64), Iface{}} }
@@ -220,7 +220,26 @@ func installStr(c *Ctx) {
 	in["fmt.Fprintf"] = func(c *Ctx, a []Value) Value {
 		return writeTo(c, a[0].(Iface), c.sprintf(a[1:]).(*Str))
 	}
-	in["fmt.Fprint"] = func(c *Ctx, a []Value) Value { return writeTo(c, a[0].(Iface), opaqueStr()) }
+	// fmt.Sprint / Fprint: every operand as %v; a space between two operands
+	// when neither is of string kind
+	sprint := func(c *Ctx, args Slice) *Str {
+		out := &Str{}
+		prevString := true
+		for k := 0; k < args.len; k++ {
+			arg := args.back.e[args.off+k]
+			iv, _ := arg.(Iface)
+			_, isStr := iv.v.(*Str)
+			if k > 0 && !isStr && !prevString {
+				out.b = append(out.b, BV(' ', 8))
+			}
+			one := &Arr{e: []Value{arg}}
+			out.b = append(out.b, c.sprintf([]Value{strConst("%v"), Slice{back: one, len: 1, cap: 1}}).(*Str).b...)
+			prevString = isStr
+		}
+		return out
+	}
+	in["fmt.Fprint"] = func(c *Ctx, a []Value) Value { return writeTo(c, a[0].(Iface), sprint(c, a[1].(Slice))) }
+	in["fmt.verifSprint"] = func(c *Ctx, a []Value) Value { return sprint(c, a[0].(Slice)) }
 	in["fmt.Fprintln"] = func(c *Ctx, a []Value) Value { return writeTo(c, a[0].(Iface), opaqueStr()) }
 	in["fmt.Errorf"] = func(c *Ctx, a []Value) Value {
 		// keep %w chain: find first error arg
